@@ -403,8 +403,11 @@ def do_netcdf(c, s, viol):
     from ocean_science_utilities.wavespectra.spectrum import load_spectrum_from_netcdf
 
     os.makedirs(SCRATCH, exist_ok=True)
-    fd, path = tempfile.mkstemp(suffix=".nc", dir=SCRATCH)
-    os.close(fd)
+    # every round trip of this process goes through the SAME path (a user re-saving to one file):
+    # a loader that keeps results per path would hand back an earlier spectrum
+    path = os.path.join(SCRATCH, "roundtrip.nc")
+    if os.path.exists(path):
+        os.remove(path)
     try:
         s.save_as_netcdf(path)
         loaded = load_spectrum_from_netcdf(path)
